@@ -1272,10 +1272,12 @@ class ProcessPoolExecutor(Executor):
             self._pending_work_items[self._queue_count] = w
             self._work_ids.put(self._queue_count)
             self._queue_count += 1
-            # Wake up queue management thread
-            self._executor_manager_thread_wakeup.wakeup()
 
             self._ensure_executor_running()
+            # Wake up queue management thread. This must come after the
+            # missing workers have been (re)spawned: the thread only rebuilds
+            # the list of worker sentinels it waits on when it is woken up.
+            self._executor_manager_thread_wakeup.wakeup()
             return f
 
     submit.__doc__ = Executor.submit.__doc__
